@@ -258,13 +258,14 @@ class Stack(Node):
         self.flags = None            # override (ext, remote, error) of delivered frames (C05)
         self.blocking_send = True
         self.zero_ts = False         # deliver frames with timestamp 0.0 (a backend without time stamping)
+        self.ts_offset = 0.0         # receive time stamps of a clock that is ahead of / behind time.time() (hardware time stamping)
         self.rx_errors = 0
 
     def _send(self, can_id, extended_id, data, fd_format=False):
         self.bus.send(self, can_id, bool(extended_id), bytes(data), bool(fd_format))
 
     def handle(self, fr):
-        msg = can.Message(timestamp=0.0 if self.zero_ts else self.bus.w.now, arbitration_id=fr.can_id,
+        msg = can.Message(timestamp=0.0 if self.zero_ts else self.bus.w.now + self.ts_offset, arbitration_id=fr.can_id,
                           is_extended_id=fr.ext, data=fr.data, is_fd=fr.fd, check=False)
         self.listener.on_message_received(msg)
 
